@@ -4,9 +4,11 @@ set -u
 P=$1; shift
 git -C /repo status --short | grep -q . && { echo "/repo not clean"; exit 2; }
 git -C /repo apply $P || { echo "PATCH DOES NOT APPLY"; exit 2; }
+rm -rf /verif/.build/evidence_backup && cp -r /verif/evidence /verif/.build/evidence_backup
 for c in "$@"; do
   echo "---- $c"
   (cd /verif && python3 verif.py check $c 2>&1 | tail -6)
 done
 git -C /repo checkout -- .
+rm -rf /verif/evidence && mv /verif/.build/evidence_backup /verif/evidence
 git -C /repo status --short
